@@ -45,6 +45,7 @@ VP_ENTRY vp_main_thread_launch()
     }                                  // destructor must return (join)
   }
 }
+VP_ENTRY vp_main_thread_launch_started() { vp_main_thread_launch(); }
 #else
 extern "C" void vp_run_thread(void);
 extern "C" unsigned vp_cv_pending(void);
@@ -87,7 +88,7 @@ extern "C" void vp_cv_block(void)
   }
 }
 
-VP_ENTRY vp_main_thread_launch()
+template <bool PRESTART> static void t_thread_launch()
 {
   vp_nothrow(true);
   g_ops_left = NOPS; g_body_runs = 0; g_stopped = true; g_destroyed = false;
@@ -96,10 +97,13 @@ VP_ENTRY vp_main_thread_launch()
     g_body_runs++;
     if (g_body_runs > NBODY) vp_assume(false);       // unwinding assumption: the loop thread performs at most NBODY body invocations
   }, AsyncLoop::THREAD);
-  inject();                                          // ... and before the loop thread gets to run at all
+  if (PRESTART) { g_stopped = false; g_loop->start(); g_start_returned_running = true; }   // history prefix: start() already returned
+  inject();                                          // the controller may act before the loop thread gets to run at all
   vp_run_thread();
   vp_assert(g_destroyed, "the loop thread only exits after the AsyncLoop was destroyed");
   vp_assert(vp_in_join() != 0, "the destructor waits for its thread (join) when it owns it");
   vp_reach("end");
 }
+VP_ENTRY vp_main_thread_launch() { t_thread_launch<false>(); }
+VP_ENTRY vp_main_thread_launch_started() { t_thread_launch<true>(); }
 #endif
